@@ -342,6 +342,7 @@ def run(ck):
         c01.rule_e(ck, R)
         c02.rule_a(ck, R)
         c02.rule_b(ck, R)
+        scan_rule(R, 'C02.b', 'ra_malformed_write', 'entries')      # every register the block overlaps is looked at (scan from entry 0 to the end)
     finally:
         ck.verdict, ck.violation, ck.floor = orig_v, orig_viol, orig_floor
     from .common import reevaluate
